@@ -336,11 +336,26 @@ def lattice(case, ctx, t0, rng):
     B = ta.unitcell_vectors[0].astype(np.float64)
     w = common.cell_widths(B).min()
     K = int(rng.choice([0, 1, 5]))
-    n = rng.integers(-K, K + 1, (t0.n_atoms, 3)).astype(np.float64) if K else np.zeros((t0.n_atoms, 3))
-    whole = rng.uniform(-1, 1, 3) * case["mag"] if rng.random() < 0.5 else np.zeros(3)
+    sub = np.sort(rng.choice(t0.n_atoms, size=min(t0.n_atoms, 5), replace=False))
+    # which atoms move: all of them independently, or only a few (the rest of the system stays where it was — here the
+    # structure is first put in the middle of the primary cell, so that the few are the only atoms outside it)
+    pattern = "all" if rng.random() < 0.6 else "few"
+    if pattern == "few":
+        ta.xyz = (ta.xyz.astype(np.float64) + B.sum(axis=0) / 2).astype(np.float32)
+        x0 = ta.xyz[0].astype(np.float64)
+        K = K or 1
+        n = np.zeros((t0.n_atoms, 3))
+        movers = sub[: int(rng.integers(1, len(sub) + 1))]
+        n[movers] = rng.integers(-K, K + 1, (len(movers), 3))
+        whole = np.zeros(3)
+        rng.random()
+    else:
+        n = rng.integers(-K, K + 1, (t0.n_atoms, 3)).astype(np.float64) if K else np.zeros((t0.n_atoms, 3))
+        whole = rng.uniform(-1, 1, 3) * case["mag"] if rng.random() < 0.5 else np.zeros(3)
+    ctx.observe("lattice_shift_pattern", pattern)
     xb = (x0 + n @ B + whole).astype(np.float32)
     tb = md.Trajectory(xb[None], t0.topology, unitcell_lengths=ta.unitcell_lengths.copy(), unitcell_angles=ta.unitcell_angles.copy())
-    tau = tau_of(t0.xyz, xb) + 16 * EPS * np.linalg.norm(B, axis=1).max()
+    tau = tau_of(ta.xyz, xb) + 16 * EPS * np.linalg.norm(B, axis=1).max()
     ctx.observe("cell", case["cell"])
     ctx.observe("lattice_shift_cells", K)
     ctx.observe("whole_translation", bool(np.any(whole)))
@@ -394,17 +409,20 @@ def lattice(case, ctx, t0, rng):
         ctx.ok("lattice.dihedrals", int(goodq.sum()) or 1)
     # neighbours and neighbour list
     cutoff = float(rng.uniform(0.25, min(0.6, w / 2 - 0.01)))
-    sub = np.sort(rng.choice(t0.n_atoms, size=min(t0.n_atoms, 5), replace=False))
-    na_, nb_ = set(md.compute_neighbors(ta, cutoff, sub)[0].tolist()), set(md.compute_neighbors(tb, cutoff, sub)[0].tolist())
     allraw = x0[:, None, :] - x0[sub][None, :, :]
     _, dall = geom.min_image(allraw, B)
     amb = {int(h) for h in range(t0.n_atoms) if np.any(np.abs(dall[h] - cutoff) <= 4 * tau + 1e-5)}
-    diff = (na_ ^ nb_) - amb
-    if diff:
-        outside = bool(K or np.any(whole))
-        ctx.violation("lattice.neighbors", f"{tag}:compute_neighbors", f"periodic neighbour set changes after lattice shifts for atoms {sorted(diff)[:6]} (cutoff {cutoff:.3f}, K={K})")
-    else:
-        ctx.ok("lattice.neighbors", t0.n_atoms - len(amb))
+    rest = np.setdiff1d(np.arange(t0.n_atoms), sub)
+    for hay, hname in ((None, "all atoms"), (rest, "explicit haystack without the query atoms")):
+        if hay is not None and not len(hay):
+            continue
+        na_ = set(md.compute_neighbors(ta, cutoff, sub, haystack_indices=hay)[0].tolist())
+        nb_ = set(md.compute_neighbors(tb, cutoff, sub, haystack_indices=hay)[0].tolist())
+        diff = (na_ ^ nb_) - amb
+        if diff:
+            ctx.violation("lattice.neighbors", f"{tag}:compute_neighbors", f"periodic neighbour set ({hname}) changes after lattice shifts for atoms {sorted(diff)[:6]} (cutoff {cutoff:.3f}, K={K}, moved: {pattern})")
+        else:
+            ctx.ok("lattice.neighbors", t0.n_atoms - len(amb))
     try:
         la = md.compute_neighborlist(ta, cutoff)
         lb = md.compute_neighborlist(tb, cutoff)
